@@ -151,6 +151,7 @@ func c13Index(c *sim.Ctx, d *sqlittle.DB, li lowIndex, budget int) {
 			c.Nontrivial = true
 			c.Probe("proper-subrange-" + kind)
 		}
+		c.State(kind, len(op.From), len(want) == 0, len(want) == n, n > 50, li.table.WithoutRowid)
 	}
 	for ki, key := range keys {
 		dk := dbKey(key, cols)
@@ -381,6 +382,7 @@ func c17Check(c *sim.Ctx, w *world.World) {
 			if k < n {
 				c.Nontrivial = true
 			}
+			c.State(o.Kind, k == 1, k == n, n > 100)
 		}
 	}
 }
